@@ -26,9 +26,21 @@ def run(ck):
     ck.clause("C19.3", "row comparison is symmetric in its two arguments; coverage formula")
     cmp_fn = p.find_method("AlignmentComparer", "compare")
     a1, a2 = [V(pp.name) for pp in cmp_fn.call_params()]
-    rets = [pa for pa in explore(ck, cmp_fn) if pa.outcome == "return"]
+    rets_all = [pa for pa in explore(ck, cmp_fn) if pa.outcome == "return"]
+    rets = [pa for pa in rets_all if pa.value[0] == "app" and pa.value[1].endswith("AlignmentComparison.create")]
+    for pa in rets_all:
+        if pa in rets:
+            continue
+        # an early return without building the rows: only "both sets empty" leaves nothing to report
+        conds = [(c, tv) for c, tv, _ in pa.state.assumptions]
+        empties = {x for c, tv in conds for x in (a1, a2) if c == x and tv is False}
+        ck.judge(empties == {a1, a2}, "C19.1", short(cmp_fn) + ":early-return", where(cmp_fn, pa.node),
+                 "a comparison is cut short only when both sets are empty: with one empty set the other set's alignments are all "
+                 "first-only / second-only rows",
+                 found=f"return {T.show(pa.value)[:80]} when " + "; ".join(("" if tv else "not ") + T.show(c)[:60] for c, tv in conds),
+                 required="rows built from both dictionaries")
     if len(rets) != 1:
-        raise AnalysisError(f"{cmp_fn.where}: compare expected to have a single return")
+        raise AnalysisError(f"{cmp_fn.where}: compare expected to have a single return that builds the comparison")
     v = rets[0].value
     w = where(cmp_fn, rets[0].node)
     if not (v[0] == "app" and v[1].endswith("AlignmentComparison.create")):
